@@ -162,6 +162,39 @@ def _pure(e, allow_list=False):
     return False
 
 
+NOEFFECT_CALLS = PURE_CALLS | {'zip', 'enumerate', 'reversed', 'sorted', 'list', 'set', 'dict', 'sum', 'any', 'all', 'print', 'deque', 'iter',
+                               'next', 'hash', 'repr', 'type', 'id', 'round', 'divmod', 'ord', 'chr', 'frozenset'}
+NOEFFECT_METHODS = PURE_METHODS | {'format', 'count', 'copy', 'join', 'split', 'replace', 'astype', 'swapaxes', 'reshape', 'view', 'info', 'warn',
+                                   'warning', 'debug', 'range', 'isdigit', 'find', 'rfind', 'tolist', 'any', 'all', 'sum', 'min', 'max'}
+
+
+def _noeffect(call):
+    """Call that does not modify program state reachable from its arguments (may allocate, may do I/O)."""
+    if _pure(call):
+        return True
+    if any(k.arg == 'out' for k in call.keywords):
+        return False
+    f = call.func
+    if isinstance(f, ast.Name):
+        return f.id in NOEFFECT_CALLS
+    if isinstance(f, ast.Attribute):
+        if isinstance(f.value, ast.Name) and f.value.id in ('np', 'math', 'log', 're'):
+            return f.attr not in ('copyto', 'put', 'place', 'putmask', 'fill')
+        return f.attr in NOEFFECT_METHODS
+    return False
+
+
+def _movable(e):
+    """Expression that may be evaluated later as long as nothing it reads changes: no call with effects, no walrus,
+    no yield/await/lambda."""
+    for n in ast.walk(e):
+        if isinstance(n, ast.Call) and not _noeffect(n):
+            return False
+        if isinstance(n, (ast.NamedExpr, ast.Yield, ast.YieldFrom, ast.Await, ast.Lambda, ast.Starred)):
+            return False
+    return True
+
+
 def _path(e):
     """Access path of a Name/Attribute/Subscript chain as a tuple ('self','c') - subscripts end the path."""
     if isinstance(e, ast.Name):
@@ -211,7 +244,7 @@ def _writes(st, own=True):
                 names.add(p[0])
             elif p:
                 paths.add(p)
-        elif isinstance(n, ast.Call) and not _pure(n):
+        elif isinstance(n, ast.Call) and not _noeffect(n):
             if isinstance(n.func, ast.Attribute):
                 p = _path(n.func.value)
                 if p:
@@ -316,13 +349,91 @@ def _exits(block, kinds):
     return bool(block) and isinstance(block[-1], kinds)
 
 
+def _tail_blocks(fn):
+    """id(statement list) -> 'loop' | 'fn' for blocks whose end is the end of a loop iteration / of the function."""
+    tails = {}
+
+    def mark(body, kind):
+        tails[id(body)] = kind
+        if body and isinstance(body[-1], ast.If):
+            mark(body[-1].body, kind)
+            if body[-1].orelse:
+                mark(body[-1].orelse, kind)
+    for n in ast.walk(fn):
+        if isinstance(n, (ast.For, ast.While)):
+            mark(n.body, 'loop')
+        elif isinstance(n, ast.FunctionDef):
+            mark(n.body, 'fn')
+    return tails
+
+
+def _merge_arms(a, b, test):
+    """Two statements that differ in exactly one loaded sub-expression: the statement with `x if test else y` there."""
+    if type(a) is not type(b) or isinstance(a, (ast.If, ast.For, ast.While, ast.With, ast.Try, ast.FunctionDef, ast.ClassDef)):
+        return None
+    a = copy.deepcopy(a)
+    diffs = []
+
+    def rec(x, y, setter):
+        if ast.dump(x) == ast.dump(y):
+            return True
+        if type(x) is type(y) and not isinstance(x, (ast.Constant, ast.Name)):
+            fx = list(ast.iter_fields(x))
+            fy = list(ast.iter_fields(y))
+            sub = []
+            ok = True
+            for (kx, vx), (ky, vy) in zip(fx, fy):
+                if isinstance(vx, ast.AST) and isinstance(vy, ast.AST):
+                    sub.append((vx, vy, (x, kx, None)))
+                elif isinstance(vx, list) and isinstance(vy, list) and len(vx) == len(vy) and all(isinstance(e, ast.AST) for e in vx + vy):
+                    for i, (ex, ey) in enumerate(zip(vx, vy)):
+                        sub.append((ex, ey, (x, kx, i)))
+                elif vx != vy:
+                    ok = False
+            if ok:
+                before = len(diffs)
+                good = all(rec(vx, vy, st) for vx, vy, st in sub)
+                if good and len(diffs) - before <= 1:
+                    return True
+                del diffs[before:]
+        if isinstance(x, ast.expr) and isinstance(y, ast.expr) and isinstance(getattr(x, 'ctx', ast.Load()), ast.Load) \
+                and isinstance(getattr(y, 'ctx', ast.Load()), ast.Load) and setter is not None:
+            diffs.append((x, y, setter))
+            return True
+        return False
+
+    if not rec(a, b, None) or len(diffs) != 1:
+        return None
+    x, y, (par, field, idx) = diffs[0]
+    new = ast.IfExp(test=test, body=x, orelse=y)
+    if idx is None:
+        setattr(par, field, new)
+    else:
+        getattr(par, field)[idx] = new
+    return a
+
+
+class _PushIfExp(ast.NodeTransformer):
+    """`(a, x) if c else (a, y)` -> `(a, x if c else y)` when the shared parts have no effects."""
+    def visit_IfExp(self, node):
+        self.generic_visit(node)
+        if isinstance(node.body, (ast.Tuple, ast.List, ast.Call, ast.BinOp, ast.Subscript, ast.Attribute)) and type(node.body) is type(node.orelse) \
+                and _movable(node.body) and _movable(node.orelse):
+            m = _merge_arms(ast.Expr(value=node.body), ast.Expr(value=node.orelse), node.test)
+            if m is not None and not isinstance(m.value, ast.IfExp):
+                return self.visit(m.value) if False else m.value
+        return node
+
+
 def _guards(fn):
+    _PushIfExp().visit(fn)
     changed = True
     while changed:
         changed = False
+        tails = _tail_blocks(fn)
         for owner, field, body in list(_blocks(fn)):
-            in_loop = isinstance(owner, (ast.For, ast.While)) and field == 'body'
-            in_fn = owner is fn and field == 'body'
+            in_loop = tails.get(id(body)) == 'loop'
+            in_fn = tails.get(id(body)) == 'fn'
             for i, st in enumerate(body):
                 if not isinstance(st, ast.If):
                     continue
@@ -365,6 +476,11 @@ def _guards(fn):
                         body[i] = ast.Return(value=ast.IfExp(test=st.test, body=a.value, orelse=b.value))
                         changed = True
                         break
+                    m = _merge_arms(a, b, st.test)
+                    if m is not None:
+                        body[i] = m
+                        changed = True
+                        break
                 # if p: (if q: R)  -> if p and q: R
                 if not st.orelse and len(st.body) == 1 and isinstance(st.body[0], ast.If) and not st.body[0].orelse:
                     inner = st.body[0]
@@ -375,11 +491,13 @@ def _guards(fn):
             if changed:
                 break
     # a trailing `continue` / bare `return` as last statement of a loop / function is a no-op
+    _PushIfExp().visit(fn)
+    tails = _tail_blocks(fn)
     for owner, field, body in list(_blocks(fn)):
-        if isinstance(owner, (ast.For, ast.While)) and field == 'body' and len(body) > 1 and isinstance(body[-1], ast.Continue):
+        if tails.get(id(body)) == 'loop' and len(body) > 1 and isinstance(body[-1], ast.Continue):
             del body[-1]
-    if len(fn.body) > 1 and isinstance(fn.body[-1], ast.Return) and fn.body[-1].value is None:
-        del fn.body[-1]
+        if tails.get(id(body)) == 'fn' and len(body) > 1 and isinstance(body[-1], ast.Return) and body[-1].value is None:
+            del body[-1]
     _NegNorm().visit(fn)
     # `if c: A else: B` with a negated test: put the positive test first (stable orientation)
     for n in ast.walk(fn):
@@ -493,6 +611,11 @@ class _AugNorm(ast.NodeTransformer):
 
     def visit_Subscript(self, node):
         self.generic_visit(node)
+        if isinstance(node.slice, ast.Tuple) and len(node.slice.elts) > 1:  # X[i, :] is X[i]
+            el = list(node.slice.elts)
+            while len(el) > 1 and isinstance(el[-1], ast.Slice) and el[-1].lower is None and el[-1].upper is None and el[-1].step is None:
+                el.pop()
+            node.slice = el[0] if len(el) == 1 else ast.Tuple(elts=el, ctx=ast.Load())
         # X[c][i, j] on an array is X[c, i, j] when c is an integer constant
         if isinstance(node.value, ast.Subscript) and isinstance(node.value.slice, ast.Constant) and type(node.value.slice.value) is int \
                 and isinstance(node.value.value, ast.Attribute):
@@ -653,6 +776,148 @@ def _unroll(fn):
     _UnrollExpr().visit(fn)
 
 
+# --------------------------------------------------------------------------------------------- accumulation loops
+
+def _mentions(node, name):
+    return any(isinstance(n, ast.Name) and n.id == name for n in ast.walk(node))
+
+
+def _comprehensions(fn):
+    """`v = []` + `for T in IT: [if C:] v.append(E)` -> `v = [E for T in IT if C]` (extend: a second generator);
+    `d = {}`/`dict()` + `for ...: d[K] = V` -> dict comprehension; `dict(<generator of pairs>)` -> dict comprehension;
+    `for T in (E for V in IT if C): B` -> `for V in IT: if C: T = E; B`."""
+    class G(ast.NodeTransformer):
+        def visit_Call(self, node):
+            self.generic_visit(node)
+            if isinstance(node.func, ast.Name) and node.func.id == 'dict' and len(node.args) == 1 and not node.keywords \
+                    and isinstance(node.args[0], (ast.GeneratorExp, ast.ListComp)) and isinstance(node.args[0].elt, ast.Tuple) \
+                    and len(node.args[0].elt.elts) == 2:
+                g = node.args[0]
+                return ast.DictComp(key=g.elt.elts[0], value=g.elt.elts[1], generators=g.generators)
+            if isinstance(node.func, ast.Name) and node.func.id in ('dict', 'list') and not node.args and not node.keywords:
+                return ast.Dict(keys=[], values=[]) if node.func.id == 'dict' else ast.List(elts=[], ctx=ast.Load())
+            # list(map(f, xs)) -> [f(x) for x in xs]
+            if isinstance(node.func, ast.Name) and node.func.id == 'list' and len(node.args) == 1 and not node.keywords \
+                    and isinstance(node.args[0], ast.Call) and isinstance(node.args[0].func, ast.Name) and node.args[0].func.id == 'map' \
+                    and len(node.args[0].args) == 2 and isinstance(node.args[0].args[0], (ast.Name, ast.Attribute)):
+                m = node.args[0]
+                x = ast.Name(id='_x_', ctx=ast.Load())
+                return ast.ListComp(elt=ast.Call(func=m.args[0], args=[x], keywords=[]),
+                                    generators=[ast.comprehension(target=ast.Name(id='_x_', ctx=ast.Store()), iter=m.args[1], ifs=[], is_async=0)])
+            return node
+
+        def visit_List(self, node):
+            self.generic_visit(node)
+            if len(node.elts) == 1 and isinstance(node.elts[0], ast.Starred) and isinstance(node.ctx, ast.Load):  # [*x] is list(x)
+                return ast.Call(func=ast.Name(id='list', ctx=ast.Load()), args=[node.elts[0].value], keywords=[])
+            return node
+
+        def visit_Compare(self, node):
+            self.generic_visit(node)
+            if len(node.ops) == 1 and isinstance(node.ops[0], (ast.In, ast.NotIn)) and isinstance(node.comparators[0], (ast.List, ast.Tuple, ast.Set)) \
+                    and all(isinstance(e, ast.Constant) for e in node.comparators[0].elts):
+                els = sorted(node.comparators[0].elts, key=lambda e: repr(e.value))  # membership in a literal: order is immaterial
+                node.comparators = [ast.Tuple(elts=els, ctx=ast.Load())]
+            return node
+
+        def _iter(self, it):
+            if isinstance(it, ast.Call) and isinstance(it.func, ast.Attribute) and it.func.attr == 'keys' and not it.args and not it.keywords:
+                return it.func.value  # iterating a dict is iterating its keys
+            return it
+
+        def visit_For(self, node):
+            self.generic_visit(node)
+            node.iter = self._iter(node.iter)
+            return node
+
+        def visit_comprehension(self, node):
+            self.generic_visit(node)
+            node.iter = self._iter(node.iter)
+            return node
+    G().visit(fn)
+    changed = True
+    while changed:
+        changed = False
+        for _o, _f, body in list(_blocks(fn)):
+            for i, st in enumerate(body):
+                # a comprehension / conditional expression evaluated only for its effects is a loop / an if statement
+                if isinstance(st, ast.Expr) and isinstance(st.value, ast.ListComp):
+                    inner = [ast.Expr(value=st.value.elt)]
+                    for g in reversed(st.value.generators):
+                        for c in reversed(g.ifs):
+                            inner = [ast.If(test=c, body=inner, orelse=[])]
+                        tgt = g.target
+                        for n in ast.walk(tgt):
+                            if hasattr(n, 'ctx'):
+                                n.ctx = ast.Store()
+                        inner = [ast.For(target=tgt, iter=g.iter, body=inner, orelse=[], lineno=getattr(st, 'lineno', 0))]
+                    body[i:i + 1] = inner
+                    changed = True
+                    break
+                if isinstance(st, ast.Expr) and isinstance(st.value, ast.IfExp):
+                    body[i] = ast.If(test=st.value.test, body=[ast.Expr(value=st.value.body)], orelse=[ast.Expr(value=st.value.orelse)], lineno=getattr(st, 'lineno', 0))
+                    changed = True
+                    break
+                # for over a generator expression
+                if isinstance(st, ast.For) and isinstance(st.iter, ast.GeneratorExp) and len(st.iter.generators) == 1 and not st.orelse \
+                        and not st.iter.generators[0].is_async:
+                    g = st.iter.generators[0]
+                    inner = list(st.body)
+                    if not (isinstance(st.iter.elt, ast.Name) and isinstance(st.target, ast.Name) and st.iter.elt.id == st.target.id
+                            and isinstance(g.target, ast.Name) and g.target.id == st.target.id):
+                        tgt = copy.deepcopy(st.target)
+                        inner = [ast.Assign(targets=[tgt], value=st.iter.elt, lineno=st.lineno)] + inner
+                    for c in reversed(g.ifs):
+                        inner = [ast.If(test=c, body=inner, orelse=[])]
+                    st.target = g.target
+                    st.iter = g.iter
+                    st.body = inner
+                    for n in ast.walk(st.target):
+                        if hasattr(n, 'ctx'):
+                            n.ctx = ast.Store()
+                    changed = True
+                    break
+                if not (isinstance(st, ast.Assign) and len(st.targets) == 1 and isinstance(st.targets[0], ast.Name)):
+                    continue
+                v = st.targets[0].id
+                if i + 1 >= len(body) or not isinstance(body[i + 1], ast.For) or body[i + 1].orelse:
+                    continue
+                loop = body[i + 1]
+                inner = loop.body
+                conds = []
+                while len(inner) == 1 and isinstance(inner[0], ast.If) and not inner[0].orelse:
+                    conds.append(inner[0].test)
+                    inner = inner[0].body
+                if len(inner) != 1 or _mentions(loop.iter, v) or any(_mentions(c, v) for c in conds):
+                    continue
+                act = inner[0]
+                new = None
+                gen = ast.comprehension(target=loop.target, iter=loop.iter, ifs=conds, is_async=0)
+                if isinstance(st.value, ast.List) and not st.value.elts and isinstance(act, ast.Expr) and isinstance(act.value, ast.Call) \
+                        and isinstance(act.value.func, ast.Attribute) and isinstance(act.value.func.value, ast.Name) and act.value.func.value.id == v \
+                        and len(act.value.args) == 1 and not act.value.keywords and not _mentions(act.value.args[0], v):
+                    if act.value.func.attr == 'append':
+                        new = ast.ListComp(elt=act.value.args[0], generators=[gen])
+                    elif act.value.func.attr == 'extend':
+                        y = ast.Name(id='_y_', ctx=ast.Load())
+                        new = ast.ListComp(elt=y, generators=[gen, ast.comprehension(target=ast.Name(id='_y_', ctx=ast.Store()), iter=act.value.args[0], ifs=[], is_async=0)])
+                elif isinstance(st.value, ast.Dict) and not st.value.keys and isinstance(act, ast.Assign) and len(act.targets) == 1 \
+                        and isinstance(act.targets[0], ast.Subscript) and isinstance(act.targets[0].value, ast.Name) and act.targets[0].value.id == v \
+                        and not _mentions(act.targets[0].slice, v) and not _mentions(act.value, v):
+                    new = ast.DictComp(key=act.targets[0].slice, value=act.value, generators=[gen])
+                if new is None:
+                    continue
+                # the loop variables must not be used afterwards (a comprehension does not leak them)
+                tn = {n.id for n in ast.walk(loop.target) if isinstance(n, ast.Name)}
+                if any(isinstance(n, ast.Name) and n.id in tn and isinstance(n.ctx, ast.Load) for s2 in body[i + 2:] for n in ast.walk(s2)):
+                    continue
+                body[i:i + 2] = [ast.Assign(targets=[st.targets[0]], value=new, lineno=st.lineno)]
+                changed = True
+                break
+            if changed:
+                break
+
+
 # --------------------------------------------------------------------------------------------- inlining
 
 def _single_return(fdef):
@@ -788,6 +1053,51 @@ def _inline(fn, module_tree, cls, depth=0, budget=None, only=None):
                         used_closures.add(key)
                         i += len(new)
                         continue
+            i += 1
+    # `v = helper(args)`: helper body is straight-line code ending in its only `return`
+    for _o, _f, body in list(_blocks(fn)):
+        i = 0
+        while i < len(body):
+            st = body[i]
+            call = st.value if isinstance(st, (ast.Assign, ast.Return)) and isinstance(st.value, ast.Call) else None
+            if call is not None and not call.keywords and (isinstance(st, ast.Return) or (len(st.targets) == 1 and isinstance(st.targets[0], ast.Name))):
+                key = recv = None
+                if isinstance(call.func, ast.Name) and ('fn', call.func.id) in tab:
+                    key = ('fn', call.func.id)
+                elif isinstance(call.func, ast.Attribute) and isinstance(call.func.value, ast.Name) and call.func.value.id == 'self' \
+                        and ('method', call.func.attr) in tab and call.func.attr.startswith('_') and not call.func.attr.startswith('__'):
+                    key, recv = ('method', call.func.attr), call.func.value
+                h = prep(key) if key is not None else None
+                if h is not None and _single_return(h) is None:
+                    a = h.args
+                    hb = _strip_doc(h.body)
+                    rets = [n for s2 in hb for n in ast.walk(s2) if isinstance(n, ast.Return)]
+                    args = ([recv] if recv is not None else []) + list(call.args)
+                    if not (a.vararg or a.kwarg or a.kwonlyargs or a.defaults or h.decorator_list) and len(rets) == 1 and rets[0] is hb[-1] \
+                            and rets[0].value is not None and len(a.args) == len(args) and all(_simple_arg(x) for x in args) \
+                            and not any(isinstance(n, (ast.Yield, ast.YieldFrom, ast.Global, ast.Nonlocal, ast.FunctionDef)) for s2 in hb for n in ast.walk(s2)):
+                        params = [x.arg for x in a.args]
+                        locs = set()
+                        for s2 in hb:
+                            locs |= _writes(s2)[0]
+                        locs -= set(params)
+                        free = {n.id for s2 in hb for n in ast.walk(s2) if isinstance(n, ast.Name)} - set(params) - locs
+                        if getattr(tab[key], '_closure', False) or not (free & set(caller_bound)):
+                            m = dict(zip(params, args))
+                            m.update({n: ast.Name(id=f'{key[1]}__{n}', ctx=ast.Load()) for n in locs})
+                            new = []
+                            for s2 in hb[:-1]:
+                                s3 = _subst(s2, m)
+                                for n in ast.walk(s3):
+                                    if isinstance(n, ast.Name) and isinstance(n.ctx, ast.Store) and n.id in locs:
+                                        n.id = f'{key[1]}__{n.id}'
+                                new.append(s3)
+                            rv = _subst(hb[-1].value, m)
+                            new.append(ast.Return(value=rv) if isinstance(st, ast.Return) else ast.Assign(targets=st.targets, value=rv, lineno=st.lineno))
+                            body[i:i + 1] = new
+                            used_closures.add(key)
+                            i += len(new)
+                            continue
             i += 1
     # drop closures that are no longer referenced
     for _o, _f, body in list(_blocks(fn)):
@@ -990,12 +1300,19 @@ def _copyprop_scope(fn, only=None):
                 t = st.targets[0].id
                 if t in special or getattr(st, '_cp_done', False) or (only is not None and not only(t)):
                     continue
-                if not _pure(st.value, allow_list=True):
-                    continue
-                if isinstance(st.value, ast.List) and not _list_use_ok(fn, t):
-                    continue
                 if any(isinstance(n, ast.Name) and n.id == t for n in ast.walk(st.value)):
                     continue  # t = f(t)
+                if not _pure(st.value, allow_list=True):
+                    # a fresh value (list, comprehension, result of an effect-free call) may move to its single use
+                    if not _movable(st.value):
+                        continue
+                    lds = [n for n in _own_walk(fn) if isinstance(n, ast.Name) and n.id == t and isinstance(n.ctx, ast.Load)]
+                    recv = [n for n in _own_walk(fn) if isinstance(n, (ast.Attribute, ast.Subscript)) and isinstance(n.value, ast.Name) and n.value.id == t]
+                    in_loop = [n for s2 in body[i + 1:] if isinstance(s2, (ast.For, ast.While)) for n in ast.walk(s2) if isinstance(n, ast.Name) and n.id == t]
+                    if len(lds) != 1 or recv or in_loop:
+                        continue
+                elif isinstance(st.value, ast.List) and not _list_use_ok(fn, t):
+                    continue
                 rest = body[i + 1:]
                 done = 0
                 for k, s in enumerate(rest):
@@ -1032,7 +1349,7 @@ def _copyprop_scope(fn, only=None):
         for _o, _f, body in list(_own_blocks(fn)):
             for st in list(body):
                 t = None
-                if isinstance(st, ast.Assign) and len(st.targets) == 1 and isinstance(st.targets[0], ast.Name) and _pure(st.value, True):
+                if isinstance(st, ast.Assign) and len(st.targets) == 1 and isinstance(st.targets[0], ast.Name) and (_pure(st.value, True) or _movable(st.value)):
                     t = st.targets[0].id
                 elif isinstance(st, ast.AugAssign) and isinstance(st.target, ast.Name) and _pure(st.value):
                     t = st.target.id
@@ -1059,7 +1376,7 @@ def _effects(st):
         p = _path(st.target)
         if p and len(p) > 1 or isinstance(st.target, ast.Subscript):
             rp.add(p)
-    impure = any(isinstance(n, ast.Call) and not _pure(n) for n in ast.walk(st))
+    impure = any(isinstance(n, ast.Call) and not _noeffect(n) for n in ast.walk(st))
     cp = {p for p in wc if p[0] != '<fn>'}
     return rn, rp, wn, wp | cp, impure
 
@@ -1286,6 +1603,9 @@ def _normalise_body(fn, module_tree, cls, depth=0, rename=True):
         _unroll(fn)
         _copyprop(fn)
         _guards(fn)
+        _comprehensions(fn)
+        if rename:
+            _alpha(fn)  # the text-keyed sorts below must not depend on the names the author chose
         fn2 = _Commute().visit(fn)
         assert fn2 is fn
         _sort_independent(fn)
